@@ -117,3 +117,47 @@ def mutate(rng, data):
         j = rng.randrange(len(data))
         data[i], data[j] = data[j], data[i]
     return bytes(data)
+
+# ---------------------------------------------------------------- octet string forms
+def os_prim(content, tag=b"\x04", lform=None):
+    return tag + length(len(content), lform) + content
+
+def os_cons(kids, indef=False, tag=b"\x24"):
+    body = b"".join(kids)
+    if indef:
+        return tag + b"\x80" + body + b"\x00\x00"
+    return tag + length(len(body)) + body
+
+def split_content(rng, content, nseg, allow_empty=True):
+    """random split of content into nseg pieces"""
+    n = len(content)
+    cuts = sorted(rng.randrange(0, n + 1) for _ in range(nseg - 1)) if allow_empty else sorted(rng.sample(range(1, n), min(nseg - 1, max(0, n - 1))))
+    pieces, prev = [], 0
+    for c in cuts:
+        pieces.append(content[prev:c]); prev = c
+    pieces.append(content[prev:])
+    return pieces
+
+def rand_os_form(rng, content, depth=0, maxdepth=3, outer_tag=None, inner_prim=b"\x04", inner_cons=b"\x24"):
+    """random BER encoding (any segmentation / nesting) of an octet string with this content;
+       outer_tag = (prim_tag_bytes, cons_tag_bytes) for the outermost value"""
+    pt, ct = (inner_prim, inner_cons) if outer_tag is None else outer_tag
+    if depth >= maxdepth or rng.random() < (0.45 if depth else 0.3):
+        return os_prim(content, pt)
+    nseg = rng.choice([0, 1, 2, 2, 3, 4]) if len(content) == 0 else rng.choice([1, 2, 2, 3, 4])
+    if nseg == 0:
+        return os_cons([], rng.random() < 0.5, ct)
+    pieces = split_content(rng, content, nseg)
+    kids = [rand_os_form(rng, p, depth + 1, maxdepth, None, inner_prim, inner_cons) for p in pieces]
+    return os_cons(kids, rng.random() < 0.5, ct)
+
+def all_splits(content, nseg):
+    """all ways to cut content into exactly nseg (possibly empty) consecutive pieces"""
+    import itertools
+    n = len(content)
+    for cuts in itertools.combinations_with_replacement(range(n + 1), nseg - 1):
+        pieces, prev = [], 0
+        for c in cuts:
+            pieces.append(content[prev:c]); prev = c
+        pieces.append(content[prev:])
+        yield pieces
